@@ -186,8 +186,17 @@ Fixpoint run_steps (e : env) (dump_each : bool) (dump_end : bool) (sv : server) 
 Definition table_line : string :=
   "irctable " ++ sjoin "," (sort_strings (map (fun e : string * nat => fst e ++ ":" ++ dec_of_nat (snd e)) cmd_table)).
 
+(* "ircline <hex>": what send() stores for a rendered line of these bytes (cut after 510 bytes + trimPartialRune), and
+   what the JSON encoder delivers for the uncut line, the cut line and the stored line *)
+Definition line_line (f : list string) : string :=
+  let s := unhex_field (nth 1 f EmptyString) in
+  let cut := stake max_length s in
+  let stored := trim_partial_rune cut in
+  sjoin " " ["ircline"; hex_field stored; hex_field (json_delivered s); hex_field (json_delivered cut); hex_field (json_delivered stored)].
+
 Definition run_line (f : list string) : string :=
   if String.eqb (nth 0 f EmptyString) "irctable" then table_line else
+  if String.eqb (nth 0 f EmptyString) "ircline" then line_line f else
   let net := unhex_field (nth 1 f EmptyString) in
   let opts := list_field (nth 2 f EmptyString) in
   let groups := match split_tokens (skipn 3 f) [] with _ :: g => g | [] => [] end in
